@@ -3202,3 +3202,11 @@ impl Transport {
         (peek(&self.rx), peek(&self.tx))
     }
 }
+
+/// Verification hook: the (otherwise private) receive-window types.
+#[cfg(feature = "verif")]
+pub mod verif_dedup {
+    #[cfg(feature = "groups")]
+    pub use super::dedup::{GroupCtrStore, MAX_GROUP_CTR_ENTRIES};
+    pub use super::dedup::RxCtrState;
+}
